@@ -39,7 +39,7 @@ def build(cfg, like=None):
         like.ret_type = c["ret_type"]
     if c.get("ro_buffer"):
         like.ro_buffer = True        # vectorised likelihood returns a read-only view of a buffer it reuses on the next call
-    pt = idblob.Transform(t, dtype=c.get("xdtype"), alias=c.get("xalias", False))
+    pt = idblob.Transform(t, dtype=c.get("xdtype"), alias=c.get("xalias", False), style=c.get("xstyle"))
     periodic, reflective = t.periodic, t.reflective
     if c["bc"] != "target":
         periodic, reflective = c["bc"]
@@ -75,14 +75,39 @@ def history_digest(s):
     return digest(H)
 
 
+def execute(c, **runkw):
+    """Construct and run (the caller has seeded the stream and installed its hooks).  With c['continue_with'] = N2 the run is
+    stopped half-way (mid-run checkpoint) and continued by a NEW sampler with N2 particles: the stored history then holds batches
+    of different sizes."""
+    if not c.get("continue_with"):
+        s, t, like, pt = build(c)
+        s.run(n_total=c["n_total"], progress=False, **runkw)
+        return s, t, like, pt
+    import os, shutil, tempfile
+    from tvf.env import OUT
+    base = OUT / "tmp"
+    base.mkdir(parents=True, exist_ok=True)
+    tmp = tempfile.mkdtemp(dir=str(base), prefix="cw-")
+    try:
+        c1 = dict(c, output_dir=tmp, output_label="cw")
+        s1, t, like, pt = build(c1)
+        s1.run(n_total=c["n_total"], progress=False, save_every=1)
+        files = sorted((f for f in os.listdir(tmp) if f.startswith("cw_") and "final" not in f), key=lambda f: int(f.split("_")[1].split(".")[0]))
+        pick = os.path.join(tmp, files[len(files) // 2])
+        s2, _, _, _ = build(dict(c1, N=int(c["continue_with"])), like=like)
+        s2.run(n_total=c["n_total"], progress=False, resume_state_path=pick, **runkw)
+        return s2, t, like, pt
+    finally:
+        shutil.rmtree(tmp, ignore_errors=True)
+
+
 def run(cfg, budget=400, **runkw):
     """Seed the ambient stream, construct, run to completion.  Returns (sampler, target, like, pt)."""
     c = full(cfg)
     np.random.seed(c["seed"])
-    s, t, like, pt = build(c)
     with attach.Hooks() as hk:
         attach.iteration_budget(hk, budget)
-        s.run(n_total=c["n_total"], progress=False, **runkw)
+        s, t, like, pt = execute(c, **runkw)
     return s, t, like, pt
 
 
